@@ -260,7 +260,7 @@ lemma polar_im (a b : ℝ) : Real.sqrt (a ^ 2 + b ^ 2) * Real.sin (pyArctan2 b a
   exact h
 
 /-- The other direction (not required by the property statement, which is polar → Cartesian → polar): Cartesian → polar → Cartesian
-reproduces every Cartesian coefficient exactly, so a Cartesian description loses nothing; the other direction: Cartesian → polar → Cartesian reproduces every Cartesian coefficient exactly -/
+reproduces every Cartesian coefficient exactly, so a Cartesian description loses nothing. -/
 theorem cartesian_roundtrip (c : CartesianCoeffs ℝ) : p2c (c2p c) = c := by
   have e2 : ∀ t : ℝ, 2 * (-t / 2) = -t := fun t => by ring
   have e3 : ∀ t : ℝ, 3 * (-t / 3) = -t := fun t => by ring
